@@ -176,6 +176,52 @@ def strat_registry(tier):
   return s()
 
 
+# ------------------------------------------------------------------------------------------------ (a'') life and death notices
+def run_notices(case):
+  """A worker tells a server that it is alive / going away (CourierClient.send_heartbeat -> the server's heartbeat handler):
+  a death notice marks the sender dead whatever kind of false value carries it, and nothing but a new registration revives it."""
+  import courier  # pylint: disable=g-import-not-at-top
+  import numpy as np  # pylint: disable=g-import-not-at-top
+  from ml_metrics._src.chainables import courier_server  # pylint: disable=g-import-not-at-top
+  from ml_metrics._src.utils import courier_utils  # pylint: disable=g-import-not-at-top
+  courier.reset()
+  Clock.now = 1000.0
+  name = f'ntc{next(_uid)}'
+  sender = f'{name}_sender'
+  server = courier_server.CourierServer(name)
+  server.build_server().Start()
+  reg = courier_utils.worker_registry()
+  reg.data.clear()
+  client = courier_utils.CourierClient(name, heartbeat_threshold_secs=T)
+  kinds = {'True': True, 'False': False, 'np.True_': np.True_, 'np.False_': np.False_, 'np.bool_(False)': np.bool_(False),
+           '1': 1, '0': 0, 'np.int64(0)': np.int64(0)}
+  what = f'notices={case["ops"]}'
+  dead = None
+  for step, op in enumerate(case['ops']):
+    w = f'{what}: step {step} {op}'
+    if op[0] == 'advance':
+      Clock.now += op[1]
+    elif op[0] == 'notice':
+      val = kinds[op[1]]
+      _guard(lambda: client.send_heartbeat(sender, val).result(), w)
+      dead = not bool(val)
+    elif op[0] == 'late_refresh':
+      reg.refresh(sender, Clock.now)
+    if dead is not None:
+      rec = reg.get(sender)
+      check((rec == 0) == dead, 'death-notice-not-honoured' if dead else 'life-notice-not-honoured',
+            f'{w}: after the notice the sender is recorded as {"alive" if rec else "dead"} (heartbeat {rec}), want {"dead" if dead else "alive"}')
+  server._request_shutdown()  # pylint: disable=protected-access
+  return {'nontrivial': any(op[0] == 'notice' and op[1] not in ('True', 'False') for op in case['ops']), 'classes': ['notices']}
+
+
+def strat_notices(tier):
+  op = st.one_of(st.tuples(st.just('notice'), st.sampled_from(['True', 'False', 'np.True_', 'np.False_', 'np.bool_(False)', '1', '0',
+                                                                'np.int64(0)'])).map(list),
+                 st.just(['late_refresh']), st.tuples(st.just('advance'), st.sampled_from([1.0, 50.0])).map(list))
+  return st.lists(op, min_size=1, max_size=8).map(lambda ops: {'ops': ops})
+
+
 # ------------------------------------------------------------------------------------------------ (a') concurrent registry ops
 def setup_sched():
   from ml_metrics._src.utils import courier_utils, iter_utils  # pylint: disable=g-import-not-at-top
@@ -477,6 +523,8 @@ def strat_pool_ops(tier):
 SCENARIOS = [
     Scenario('registry_histories', run_registry, strategy=strat_registry, setup=setup_registry,
              budget={'quick': 3000, 'thorough': 60000}, shards={'quick': 4, 'thorough': 16}),
+    Scenario('notices', run_notices, strategy=strat_notices, setup=setup_registry,
+             budget={'quick': 400, 'thorough': 4000}, shards={'quick': 1, 'thorough': 4}),
     Scenario('registry_threads', run_registry_threads, strategy=strat_registry_threads, setup=setup_sched,
              budget={'quick': 1500, 'thorough': 30000}, shards={'quick': 2, 'thorough': 8}),
     Scenario('ownership', run_ownership, strategy=strat_ownership, setup=setup_sched,
